@@ -14,7 +14,7 @@ RULE = ("single: 3 already-signed actions x {unsigned, singly signed by the tool
         "nodes pre-signed), random configurations assigning key/key-id/alg/omit-signing/already-signed-action per node "
         "with inherited sign-script/kms-script/alg/context (also through NCS_SUIT_*_SCRIPT environment variables), "
         "unnamed dependencies and payloads present; failing configurations (named dependency absent / not an envelope "
-        "/ error action on a signed node / omit-signing without key) at a random node; routes cmd_sign.main, CLI "
+        "/ error action on a signed node / signed node without key-name or key-id) at a random node, omit-signing nodes without any key; routes cmd_sign.main, CLI "
         "in-process, sampled real CLI. distinct = digest of (input, configuration); non-trivial = a signed input, a "
         "mismatch, or a tree with >= 2 nodes")
 MIN_DISTINCT = {"quick": 400, "thorough": 4000}
@@ -192,6 +192,10 @@ def make_config(rec, r, node, inherited_alg, top, failure, state):
         kid = r.choice(signing.KIDS)
         cfg["key-name"] = key.name
         cfg["key-id"] = hex(kid) if r.random() < 0.6 else str(kid)
+        if failure == "missing-key" and not state["failed"] and not top and r.random() < 0.5:
+            # keys and key ids are NOT inherited: a node that is to be signed but names no key must be refused
+            del cfg[r.choice(["key-name", "key-id"])]
+            state["failed"] = "missing-key"
         action = None
         if node.presigned:
             action = r.choice(["skip", "remove-old", "remove-old"] + (["error"] if failure == "error-action" and
@@ -275,7 +279,7 @@ def case_recursive(rec, case):
     r = common.case_rng(case["seed"], ID, case["n"])
     wd = rec.tmpdir()
     failure = case.get("failure", r.choice([None, None, None, None, "absent-dependency", "not-an-envelope",
-                                            "error-action"]))
+                                            "error-action", "missing-key"]))
     root = build_tree(rec, r, wd, 0, r.choice([1, 2, 3]))
     if root is None:
         return
@@ -402,7 +406,8 @@ def finish(merged, tier, seed):
     need = [f"single:{a}/{s}/{m}" for a in ACTIONS for s in ("signed", "unsigned") for m in ("match", "mismatch")]
     need += ["recursive:node:omit", "recursive:node:sign", "recursive:node:sign:skip", "recursive:node:sign:remove-old",
              "recursive:failure:absent-dependency", "recursive:failure:not-an-envelope",
-             "recursive:failure:error-action", "recursive:depth:3", "recursive:scripts-from-environment"]
+             "recursive:failure:error-action", "recursive:failure:missing-key", "recursive:depth:3",
+             "recursive:scripts-from-environment"]
     for k in need:
         if cnt.get(k, 0) < 3:
             merged["inconclusive"].append(f"class {k} observed fewer than 3 times")
